@@ -529,7 +529,6 @@ Qed.
 (* ------------------------------------------------------------------------------------------- *)
 (* D. reading back what the formatter wrote                                                     *)
 (* ------------------------------------------------------------------------------------------- *)
-Definition asafe (strict : bool) (v : str) : bool := if strict then attr_safe v else true.
 
 Lemma rd_attr_escape strict v : asafe strict v = true -> rd_attr strict (escape_attr v) = Some v.
 Proof.
@@ -764,54 +763,64 @@ Theorem document_roundtrip strict k ts :
 Proof. intros H. rewrite indentation_irrelevant. apply events_roundtrip. exact H. Qed.
 
 (* ------------------------------------------------------------------------------------------- *)
-(* E. sophia: convert_triple, serialize_triples, and the parser adapter                         *)
+(* E. sophia: convert_triple, serialize_triples, the parser adapter                             *)
 (* ------------------------------------------------------------------------------------------- *)
+
 (* THEOREM (sophia convert_triple): exactly the triples with IRI/blank subject, IRI predicate and
    IRI/blank/literal object are handed to the formatter, unchanged (unconvert is the parser-side
    adapter, so this is also "adapter after convert_triple = identity") *)
 Theorem convert_representable t :
-  representable t = true -> exists x, convert t = CTriple x /\ unconvert x = t.
+  representable t = true ->
+  exists n p o, convert t = CRio (SNode n) p (OObj o) /\ unconvert (n, p, o) = t.
 Proof.
   destruct t as [[s p] o]. destruct s; try discriminate; destruct p; try discriminate;
     destruct o; try discriminate; intros _; cbn [convert].
-  all: try (eexists; split; [reflexivity|reflexivity]).
-  all: destruct (str_eqb xsd_string dt) eqn:E; eexists; (split; [reflexivity|]); cbn [unconvert term_of_node term_of_obj];
-       try reflexivity; apply str_eqb_eq in E; subst; reflexivity.
+  all: try (do 3 eexists; split; [reflexivity|reflexivity]).
+  all: destruct (str_eqb xsd_string dt) eqn:E; do 3 eexists; (split; [reflexivity|]);
+       cbn [unconvert term_of_node term_of_obj]; try reflexivity; apply str_eqb_eq in E; subst; reflexivity.
 Qed.
 
 (* ... every other triple without quoted triples (generalised RDF: literal or variable subject,
    non-IRI predicate, variable object) is silently skipped *)
 Theorem convert_skips t : flat3 t = true -> representable t = false -> convert t = CSkip.
 Proof.
-  destruct t as [[s p] o]. destruct s; destruct p; destruct o; cbn [flat3 flat_term representable is_node_term is_iri_term is_obj_term andb];
+  destruct t as [[s p] o]. destruct s; destruct p; destruct o;
+    cbn [flat3 flat_term representable is_node_term is_iri_term is_obj_term andb];
     try discriminate; intros _ _; reflexivity.
 Qed.
 
 (* ... and a triple whose subject or object is a (convertible) quoted triple reaches the formatter,
    which answers with an error: serialisation of RDF-star data fails, it does not skip *)
 Example quoted_subject_fails : forall k a b c,
-  serialize k [(Triple (Iri a) (Iri b) (Iri c), Iri b, Iri c)] = SerErrSubj.
+  serialize false k [(Triple (Iri a) (Iri b) (Iri c), Iri b, Iri c)] = SerErrSubj.
 Proof. reflexivity. Qed.
 Example quoted_object_fails : forall k a b c,
-  serialize k [(Iri a, Iri b, Triple (Iri a) (Iri b) (LitDt c c))] = SerErrObj.
+  serialize false k [(Iri a, Iri b, Triple (Iri a) (Iri b) (LitDt c c))] = SerErrObj.
 Proof. reflexivity. Qed.
-Example quoted_unconvertible_skipped : forall k a b c,
-  serialize k [(Iri a, Iri b, Triple (LitDt c c) (Iri b) (Iri a))] = serialize k [].
+Example quoted_unconvertible_skipped : forall guard k a b c,
+  serialize guard k [(Iri a, Iri b, Triple (LitDt c c) (Iri b) (Iri a))] = serialize guard k [].
 Proof. reflexivity. Qed.
 
+Lemma ren_t_false t : ren_t false t = t.
+Proof. destruct t as [[s p] o]. destruct s; destruct o as [[]| | |]; reflexivity. Qed.
+
+(* the Rio triples sophia hands over for a graph without quoted triples *)
+Definition rts (g : list (term * term * term)) : list rtriple := fst (collect false g).
+
 Lemma collect_flat g : forallb flat3 g = true ->
-  snd (collect g) = None /\ map unconvert (fst (collect g)) = filter representable g.
+  snd (collect false g) = None /\ map unconvert (rts g) = filter representable g.
 Proof.
-  induction g as [|t g IH]; [auto|]. cbn [forallb]. intros H. apply andb_true_iff in H as [Ht Hg].
+  unfold rts. induction g as [|t g IH]; [auto|]. cbn [forallb]. intros H. apply andb_true_iff in H as [Ht Hg].
   destruct (IH Hg) as [IH1 IH2]. cbn [collect filter].
   destruct (representable t) eqn:R.
-  - destruct (convert_representable t R) as (x & -> & Hx).
-    destruct (collect g) as [ts e]. cbn [fst snd map] in *. rewrite IH1, IH2, Hx. auto.
+  - destruct (convert_representable t R) as (n & p & o & -> & Hx).
+    cbn [guard_format andb]. rewrite ren_t_false.
+    destruct (collect false g) as [ts e]. cbn [fst snd map] in *. rewrite IH1, IH2, Hx. auto.
   - rewrite (convert_skips t Ht R). auto.
 Qed.
 
-Lemma unconvert_norm x : unconvert (norm_t x) = norm_term3 (unconvert x).
-Proof. destruct x as [[s p] o]. destruct o as [n|v|v tag|v dt]; try reflexivity. destruct n; reflexivity. Qed.
+Lemma unconvert_norm guard x : unconvert (norm_t (ren_t guard x)) = norm_term3 guard (unconvert x).
+Proof. destruct x as [[s p] o]. destruct s; destruct o as [[]|v|v tag|v dt]; reflexivity. Qed.
 
 Lemma term_eqb_refl t : term_eqb t t = true.
 Proof.
@@ -819,93 +828,258 @@ Proof.
   - unfold str_eqb_ci. rewrite str_eqb_refl. reflexivity.
   - rewrite IHt1, IHt2, IHt3. reflexivity.
 Qed.
-(* lower-casing the tag is invisible to Term::eq *)
-Lemma norm_term3_eq t : triple3_eqb (norm_term3 t) t = true.
+(* lower-casing the tag is invisible to Term::eq: without the repair what is read back is
+   Term::eq-equal to what was written, triple by triple *)
+Lemma norm_term3_eq t : triple3_eqb (norm_term3 false t) t = true.
 Proof.
-  destruct t as [[s p] o]. unfold triple3_eqb, norm_term3. rewrite !term_eqb_refl. cbn [andb].
-  destruct o; try apply term_eqb_refl. cbn [term_eqb]. rewrite str_eqb_refl. unfold str_eqb_ci.
-  rewrite lower_idem, str_eqb_refl. reflexivity.
+  assert (H : forall x, term_eqb (norm_term false x) x = true).
+  { intros x. destruct x; try apply term_eqb_refl. cbn [norm_term term_eqb]. rewrite str_eqb_refl.
+    unfold str_eqb_ci. rewrite lower_idem, str_eqb_refl. reflexivity. }
+  destruct t as [[s p] o]. unfold triple3_eqb, norm_term3. rewrite !H, term_eqb_refl. reflexivity.
 Qed.
 
 (* the class, on sophia's side: the Rio triples handed to the formatter are all in the class *)
 Definition graph_ok (strict : bool) (g : list (term * term * term)) : bool :=
-  forallb (triple_ok strict) (fst (collect g)).
+  forallb (triple_ok strict) (rts g).
 
-(* THEOREM (the property, on the model): for a graph without quoted triples whose representable
-   triples are in the class, serialisation succeeds with every indentation and reading the written
-   events gives exactly the representable triples, in order, same labels, tags lower-cased *)
+(* THEOREM (the property on the model, serializer as it is): for a graph without quoted triples
+   whose representable triples are in the class, serialisation succeeds with every indentation and
+   reading the written events gives exactly the representable triples, in order, same labels, tags
+   lower-cased *)
 Theorem sophia_roundtrip strict k g :
   forallb flat3 g = true -> graph_ok strict g = true ->
-  serialize k g = SerOk (flatten (doc_events k (fst (collect g))))
-  /\ model_parse strict k g = Some (map norm_term3 (filter representable g)).
+  serialize false k g = SerOk (flatten (doc_events k (rts g)))
+  /\ model_parse false strict k g = Some (expected_parse false g).
 Proof.
-  intros Hf Hok. destruct (collect_flat g Hf) as [He Hm]. unfold serialize, model_parse, graph_ok in *.
-  destruct (collect g) as [ts e]. cbn [fst snd] in *. subst e. split; [reflexivity|].
+  intros Hf Hok. destruct (collect_flat g Hf) as [He Hm]. unfold serialize, model_parse, graph_ok, rts, expected_parse in *.
+  destruct (collect false g) as [ts e]. cbn [fst snd] in *. subst e. split; [reflexivity|].
   rewrite (document_roundtrip strict k ts Hok). cbn [option_map]. rewrite map_map.
-  rewrite <- Hm, map_map. f_equal. apply map_ext. intros x. apply unconvert_norm.
+  rewrite <- Hm, map_map. f_equal. apply map_ext. intros x.
+  rewrite <- (ren_t_false x) at 1. apply unconvert_norm.
 Qed.
 
-(* THEOREM (indentation, on sophia's configuration): for EVERY graph -- in the class or not,
-   with either reader -- the indentation setting does not change what is read back *)
-Theorem indentation_never_matters strict k g : model_parse strict k g = model_parse strict 0 g.
+(* THEOREM (indentation, on sophia's configuration): for EVERY graph -- in the class or not, with
+   or without the repair, with either reader -- the indentation setting does not change what is
+   read back *)
+Theorem indentation_never_matters guard strict k g :
+  model_parse guard strict k g = model_parse guard strict 0 g.
 Proof.
-  unfold model_parse. destruct (collect g) as [ts [e|]]; [reflexivity|].
+  unfold model_parse. destruct (collect guard g) as [ts [e|]]; [reflexivity|].
   rewrite !indentation_irrelevant. reflexivity.
 Qed.
 (* ... and whether serialisation succeeds does not depend on it either *)
-Theorem indentation_same_outcome k g :
-  match serialize k g, serialize 0 g with
-  | SerOk _, SerOk _ | SerErrSubj, SerErrSubj | SerErrObj, SerErrObj => True
+Theorem indentation_same_outcome guard k g :
+  match serialize guard k g, serialize guard 0 g with
+  | SerOk _, SerOk _ | SerErrSubj, SerErrSubj | SerErrObj, SerErrObj | SerErrInput, SerErrInput => True
   | _, _ => False
   end.
-Proof. unfold serialize. destruct (collect g) as [ts [[]|]]; exact I. Qed.
+Proof. unfold serialize. destruct (collect guard g) as [ts [[]|]]; exact I. Qed.
+
+(* ---- the repair ([guard = true]) ---- *)
+Lemma name_char_safe c : is_name_char c = true ->
+  is_xml_char c = true /\ (9 =? c) = false /\ (10 =? c) = false /\ (13 =? c) = false.
+Proof.
+  unfold is_name_char, is_name_start_char, is_xml_char, in_rng. intros H.
+  repeat rewrite orb_true_iff in H. repeat rewrite andb_true_iff in H.
+  rewrite ?N.eqb_eq, ?N.leb_le in H.
+  repeat split.
+  - repeat rewrite orb_true_iff. repeat rewrite andb_true_iff. rewrite ?N.eqb_eq, ?N.leb_le. lia.
+  - apply N.eqb_neq. lia.
+  - apply N.eqb_neq. lia.
+  - apply N.eqb_neq. lia.
+Qed.
+Lemma name_chars_attr_safe s : forallb is_name_char s = true -> attr_safe s = true.
+Proof.
+  unfold attr_safe, xml_str. induction s as [|c s IH]; [reflexivity|]. cbn [forallb]. intros H.
+  apply andb_true_iff in H as [Hc Hs]. specialize (IH Hs).
+  apply andb_true_iff in IH as [IH H13]. apply andb_true_iff in IH as [IH H10]. apply andb_true_iff in IH as [Hx H9].
+  destruct (name_char_safe c Hc) as (A & B & C & D).
+  rewrite !has_cons, A, B, C, D, Hx. cbn [andb orb]. rewrite H9, H10, H13. reflexivity.
+Qed.
+Lemma digit_name_char c : in_rng c 48 57 = true -> is_name_char c = true.
+Proof. unfold is_name_char. intros ->. rewrite !orb_true_r. reflexivity. Qed.
+Lemma nc_start_name_char c : nc_start c = true -> is_name_char c = true.
+Proof. unfold nc_start. intros H. apply andb_true_iff in H as [H _]. apply name_start_is_name. exact H. Qed.
+Lemma not_brk_all r : forallb (fun x => negb (brk x)) r = true ->
+  forallb is_name_char r = true /\ forallb not_colon r = true.
+Proof.
+  induction r as [|x r IH]; [auto|]. cbn [forallb]. intros H. apply andb_true_iff in H as [Hx Hr].
+  destruct (not_brk x Hx) as [-> ->]. destruct (IH Hr) as [-> ->]. auto.
+Qed.
+
+Lemma label_name_chars b : label_ok b = true -> forallb is_name_char (node_out true b) = true.
+Proof.
+  unfold label_ok, node_out. destruct b as [|c r]; [discriminate|]. intros H.
+  apply andb_true_iff in H as [Hc Hr]. destruct (not_brk_all r Hr) as [Hn _].
+  assert (Hcn : is_name_char c = true).
+  { apply orb_true_iff in Hc as [Hc|Hc]; [apply nc_start_name_char|apply digit_name_char]; exact Hc. }
+  destruct (in_rng c 48 57 || (c =? 95)); cbn [forallb]; rewrite Hcn, Hn; reflexivity.
+Qed.
+(* THEOREM (repair): every blank node label sophia accepts is written as an NCName ... *)
+Theorem node_out_ncname b : label_ok b = true -> is_ncname (node_out true b) = true.
+Proof.
+  unfold label_ok, node_out. destruct b as [|c r]; [discriminate|]. intros H.
+  apply andb_true_iff in H as [Hc Hr]. destruct (not_brk_all r Hr) as [Hn Hcol].
+  destruct (in_rng c 48 57 || (c =? 95)) eqn:E.
+  - assert (Hcn : is_name_char c = true /\ not_colon c = true).
+    { apply orb_true_iff in E as [E|E].
+      - split; [apply digit_name_char; exact E|]. unfold in_rng in E. apply andb_true_iff in E as [E1 E2].
+        apply N.leb_le in E1, E2. unfold not_colon. apply negb_true_iff, N.eqb_neq. lia.
+      - apply N.eqb_eq in E. subst c. split; reflexivity. }
+    destruct Hcn as [A B]. unfold is_ncname, is_name. cbn [forallb]. rewrite A, Hn, B, Hcol. reflexivity.
+  - apply orb_false_iff in E as [E _]. rewrite E, orb_false_r in Hc.
+    unfold nc_start in Hc. apply andb_true_iff in Hc as [A B].
+    unfold is_ncname, is_name. cbn [forallb]. unfold not_colon at 1. rewrite A, Hn, B, Hcol. reflexivity.
+Qed.
+(* ... and distinct labels stay distinct, so the renaming is an isomorphism of graphs *)
+Theorem node_out_injective a b : node_out true a = node_out true b -> a = b.
+Proof.
+  unfold node_out. destruct a as [|x a'], b as [|y b']; try reflexivity.
+  - destruct (in_rng y 48 57 || (y =? 95)); discriminate.
+  - destruct (in_rng x 48 57 || (x =? 95)); discriminate.
+  - destruct (in_rng x 48 57 || (x =? 95)) eqn:Ex, (in_rng y 48 57 || (y =? 95)) eqn:Ey; intros H.
+    + injection H as -> ->. reflexivity.
+    + injection H as <- _. rewrite N.eqb_refl, orb_true_r in Ey. discriminate.
+    + injection H as -> _. rewrite N.eqb_refl, orb_true_r in Ex. discriminate.
+    + exact H.
+Qed.
+
+Lemma guard_format_node n p o :
+  guard_format true (SNode n) p (OObj o)
+  = if expressible (n, p, o) then FOk (ren_t true (n, p, o)) else FErr SerErrInput.
+Proof.
+  unfold guard_format, expressible. cbn [andb]. destruct (check_pred p); cbn [negb andb]; [|reflexivity].
+  destruct (lit_text o) as [v|]; [destruct (xml_str v)|]; reflexivity.
+Qed.
+
+Lemma node_valid_ok strict n : node_valid strict n = true -> node_ok strict (ren_node true n) = true.
+Proof.
+  destruct n as [i|b]; cbn [node_valid ren_node node_ok].
+  - unfold asafe. destruct strict; auto.
+  - intros H. rewrite (node_out_ncname b H). destruct strict; [|reflexivity].
+    apply name_chars_attr_safe, label_name_chars. exact H.
+Qed.
+
+Lemma guard_triple_ok strict t :
+  expressible t = true -> triple_valid strict t = true -> triple_ok strict (ren_t true t) = true.
+Proof.
+  destruct t as [[s p] o]. cbn [expressible triple_valid ren_t triple_ok]. intros He Hv.
+  apply andb_true_iff in He as [Hp Ht]. unfold check_pred in Hp. apply andb_true_iff in Hp as [Hl Hr].
+  apply andb_true_iff in Hv as [Hv Ho]. apply andb_true_iff in Hv as [Hv Hpa]. apply andb_true_iff in Hv as [Hs Hc].
+  rewrite (node_valid_ok strict s Hs). cbn [andb].
+  assert (Hpred : pred_ok strict p = true).
+  { unfold pred_ok. rewrite Hc, Hr. cbn [andb]. destruct strict; [|reflexivity].
+    cbn [asafe] in Hpa. rewrite Hpa. unfold has_local in Hl. destruct (snd (split_iri p)); [discriminate|reflexivity]. }
+  rewrite Hpred. cbn [andb].
+  destruct o as [n|v|v tag|v dt]; cbn [ren_obj obj_ok obj_valid lit_text] in *.
+  - apply node_valid_ok. exact Ho.
+  - unfold lit_ok, lit_valid, text_safe in *. destruct strict; [rewrite Ht, Ho; reflexivity|exact Ho].
+  - apply andb_true_iff in Ho as [Hv Ha]. unfold lit_ok, lit_valid, text_safe, asafe in *.
+    destruct strict; [rewrite Ht, Hv, Ha; reflexivity|rewrite Hv; reflexivity].
+  - apply andb_true_iff in Ho as [Hv Ha]. unfold lit_ok, lit_valid, text_safe, asafe in *.
+    destruct strict; [rewrite Ht, Hv, Ha; reflexivity|rewrite Hv; reflexivity].
+Qed.
+
+Lemma collect_guarded g : forallb flat3 g = true ->
+  if forallb expressible (rts g) then collect true g = (map (ren_t true) (rts g), None)
+  else snd (collect true g) = Some SerErrInput.
+Proof.
+  unfold rts. induction g as [|t g IH]; [reflexivity|]. cbn [forallb]. intros H. apply andb_true_iff in H as [Ht Hg].
+  specialize (IH Hg). cbn [collect].
+  destruct (representable t) eqn:R.
+  - destruct (convert_representable t R) as (n & p & o & -> & _).
+    rewrite guard_format_node. cbn [guard_format andb]. rewrite ren_t_false.
+    destruct (collect false g) as [ts e]. cbn [fst snd forallb map] in *.
+    destruct (expressible (n, p, o)); cbn [andb]; [|reflexivity].
+    destruct (forallb expressible ts).
+    + rewrite IH. reflexivity.
+    + destruct (collect true g) as [ts' e']. cbn [snd] in *. exact IH.
+  - rewrite (convert_skips t Ht R). exact IH.
+Qed.
+
+(* THEOREM (repair, rejection): a graph without quoted triples one of whose representable triples
+   is not expressible (predicate without local name or reserved, text outside Char) is refused
+   with an error -- nothing ill-formed is written *)
+Theorem guarded_rejects k g :
+  forallb flat3 g = true -> forallb expressible (rts g) = false -> serialize true k g = SerErrInput.
+Proof.
+  intros Hf He. pose proof (collect_guarded g Hf) as H. rewrite He in H.
+  unfold serialize. destruct (collect true g) as [ts e]. cbn [snd] in H. subst e. reflexivity.
+Qed.
+
+(* THEOREM (repair, the property on the model): otherwise serialisation succeeds, and for terms
+   valid in sophia (blank node labels per BnodeId; IRIs, tags without characters XML would
+   normalise; CR-free text for the XML reader, not whitespace-only text for Rio's reader) reading
+   the written events gives the representable triples, in order, labels through the injective
+   node_out, tags lower-cased.  No hypothesis on predicates or on XML-legality of the text. *)
+Theorem guarded_roundtrip strict k g :
+  forallb flat3 g = true -> forallb expressible (rts g) = true ->
+  forallb (triple_valid strict) (rts g) = true ->
+  serialize true k g = SerOk (flatten (doc_events k (map (ren_t true) (rts g))))
+  /\ model_parse true strict k g = Some (expected_parse true g).
+Proof.
+  intros Hf He Hv. pose proof (collect_guarded g Hf) as H. rewrite He in H.
+  destruct (collect_flat g Hf) as [_ Hm].
+  unfold serialize, model_parse, expected_parse. rewrite H. split; [reflexivity|].
+  rewrite document_roundtrip.
+  - cbn [option_map]. rewrite !map_map, <- Hm, map_map. f_equal. apply map_ext. intros x. apply unconvert_norm.
+  - rewrite forallb_forall in *. intros x Hin. apply in_map_iff in Hin as (y & <- & Hy).
+    apply guard_triple_ok; auto.
+Qed.
 
 (* ---- refutations: what happens outside the classes (each is an observed behaviour) ---- *)
 Definition ex_s : term := Iri [104;116;116;112;58;47;47;101;47;115].            (* http://e/s *)
 Definition ex_p : term := Iri [104;116;116;112;58;47;47;101;47;112].            (* http://e/p *)
 (* KNOWN FINDING: a whitespace-only literal is re-read as "" by Rio's reader; the document
-   itself is right (the XML/RDF reader gives the literal back) *)
+   itself is right (the XML/RDF reader gives the literal back); the repair cannot change that *)
 Example ws_only_literal_refuted :
-  model_parse false 0 [(ex_s, ex_p, LitDt [32] xsd_string)] = Some [(ex_s, ex_p, LitDt [] xsd_string)]
-  /\ model_parse true 0 [(ex_s, ex_p, LitDt [32] xsd_string)] = Some [(ex_s, ex_p, LitDt [32] xsd_string)]
-  /\ model_parse false 4 [(ex_s, ex_p, LitLang [10;9] [101;110])] = Some [(ex_s, ex_p, LitLang [] [101;110])].
+  model_parse false false 0 [(ex_s, ex_p, LitDt [32] xsd_string)] = Some [(ex_s, ex_p, LitDt [] xsd_string)]
+  /\ model_parse true false 0 [(ex_s, ex_p, LitDt [32] xsd_string)] = Some [(ex_s, ex_p, LitDt [] xsd_string)]
+  /\ model_parse true true 0 [(ex_s, ex_p, LitDt [32] xsd_string)] = Some [(ex_s, ex_p, LitDt [32] xsd_string)]
+  /\ model_parse true false 4 [(ex_s, ex_p, LitLang [10;9] [101;110])] = Some [(ex_s, ex_p, LitLang [] [101;110])].
 Proof. vm_compute. repeat split; reflexivity. Qed.
-(* a blank node label starting with a digit is written as rdf:nodeID="0a": not an NCName, rejected by both readers *)
+(* without the repair a blank node label starting with a digit is written as rdf:nodeID="0a":
+   not an NCName, rejected by both readers; with it, it comes back as _0a *)
 Example bnode_digit_refuted :
-  model_parse false 0 [(Bnode [48;97], ex_p, ex_s)] = None /\ model_parse true 0 [(ex_s, ex_p, Bnode [48])] = None.
-Proof. vm_compute. split; reflexivity. Qed.
-(* rdf:li as a predicate is read back as rdf:_1; rdf:Description / rdf:about ... are rejected *)
-Example rdf_li_refuted :
-  model_parse false 0 [(ex_s, Iri rdf_li, ex_s)] = Some [(ex_s, Iri (rdf_ns ++ [95;49]), ex_s)]
-  /\ model_parse false 0 [(ex_s, Iri (rdf_ns ++ l_Description), ex_s)] = None
-  /\ model_parse false 0 [(ex_s, Iri (rdf_ns ++ l_about), ex_s)] = None.
+  model_parse false false 0 [(Bnode [48;97], ex_p, ex_s)] = None /\ model_parse false true 0 [(ex_s, ex_p, Bnode [48])] = None
+  /\ model_parse true false 0 [(Bnode [48;97], ex_p, ex_s)] = Some [(Bnode [95;48;97], ex_p, ex_s)].
 Proof. vm_compute. repeat split; reflexivity. Qed.
-(* a predicate with no NCName suffix is written as <prop: xmlns:prop="...">: Rio's reader accepts
-   the empty local part, a namespace-aware XML reader does not *)
+(* without the repair rdf:li as a predicate is read back as rdf:_1, rdf:Description / rdf:about ...
+   are rejected by the reader; with it the serializer refuses them *)
+Example rdf_li_refuted :
+  model_parse false false 0 [(ex_s, Iri rdf_li, ex_s)] = Some [(ex_s, Iri (rdf_ns ++ [95;49]), ex_s)]
+  /\ model_parse false false 0 [(ex_s, Iri (rdf_ns ++ l_Description), ex_s)] = None
+  /\ model_parse false false 0 [(ex_s, Iri (rdf_ns ++ l_about), ex_s)] = None
+  /\ serialize true 0 [(ex_s, Iri rdf_li, ex_s)] = SerErrInput.
+Proof. vm_compute. repeat split; reflexivity. Qed.
+(* without the repair a predicate with no NCName suffix is written as <prop: xmlns:prop="...">:
+   Rio's reader accepts the empty local part, a namespace-aware XML reader does not *)
 Example unsplittable_predicate_refuted :
   let g := [(ex_s, Iri [117;114;110;58;49], ex_s)] in             (* urn:1 *)
-  model_parse false 0 g = Some g /\ model_parse true 0 g = None.
-Proof. vm_compute. split; reflexivity. Qed.
-(* CR survives Rio's reader (quick-xml does no end-of-line normalisation) but not an XML reader *)
+  model_parse false false 0 g = Some g /\ model_parse false true 0 g = None /\ serialize true 0 g = SerErrInput.
+Proof. vm_compute. repeat split; reflexivity. Qed.
+(* CR survives Rio's reader (quick-xml does no end-of-line normalisation) but not an XML reader;
+   Rio's formatter would have to write &#13; -- not repairable on sophia's side *)
 Example cr_literal_refuted :
   let g := [(ex_s, ex_p, LitDt [97;13;98] xsd_string)] in
-  model_parse false 0 g = Some g /\ model_parse true 0 g = Some [(ex_s, ex_p, LitDt [97;10;98] xsd_string)].
+  model_parse true false 0 g = Some g /\ model_parse true true 0 g = Some [(ex_s, ex_p, LitDt [97;10;98] xsd_string)].
 Proof. vm_compute. split; reflexivity. Qed.
-(* a character outside XML's Char production is written raw, without an error *)
+(* without the repair a character outside XML's Char production is written raw, without an error *)
 Example illegal_char_written :
   let g := [(ex_s, ex_p, LitDt [1] xsd_string)] in
-  match serialize 0 g with SerOk d => xml_str d | _ => true end = false
-  /\ model_parse false 0 g = Some g /\ model_parse true 0 g = None.
+  match serialize false 0 g with SerOk d => xml_str d | _ => true end = false
+  /\ model_parse false false 0 g = Some g /\ model_parse false true 0 g = None
+  /\ serialize true 0 g = SerErrInput.
 Proof. vm_compute. repeat split; reflexivity. Qed.
 (* generalised triples are skipped, the rest is kept *)
 Example generalised_skipped :
-  model_parse true 2 [(LitDt [49] xsd_string, ex_p, ex_s); (ex_s, Bnode [98], ex_s); (ex_s, ex_p, Var [118]); (ex_s, ex_p, ex_s)]
+  model_parse true true 2 [(LitDt [49] xsd_string, ex_p, ex_s); (ex_s, Bnode [98], ex_s); (ex_s, ex_p, Var [118]); (ex_s, ex_p, ex_s)]
   = Some [(ex_s, ex_p, ex_s)].
 Proof. vm_compute. reflexivity. Qed.
 
 (* non-vacuity of the classes: markup characters, leading/trailing whitespace and newlines, TAB,
    a non-BMP character, rdf:XMLLiteral-typed text, an upper-case language tag, blank nodes in
-   subject and object position, three different namespace split points *)
+   subject and object position (one label starting with a digit), three namespace split points *)
 Definition ex_graph : list (term * term * term) :=
   [ (ex_s, ex_p, LitDt [32;60;38;62;34;39;10;9;128512;32] xsd_string);
     (ex_s, Iri [104;116;116;112;58;47;47;101;47;49;97], Bnode [98;46;99]);                   (* http://e/1a , _:b.c *)
@@ -915,5 +1089,12 @@ Example ex_graph_in_both_classes :
   forallb flat3 ex_graph = true /\ graph_ok true ex_graph = true /\ graph_ok false ex_graph = true.
 Proof. vm_compute. repeat split; reflexivity. Qed.
 Example ex_graph_roundtrip :
-  model_parse true 8 ex_graph = Some (map norm_term3 ex_graph) /\ model_parse false 3 ex_graph = Some (map norm_term3 ex_graph).
+  model_parse false true 8 ex_graph = Some (expected_parse false ex_graph)
+  /\ model_parse false false 3 ex_graph = Some (expected_parse false ex_graph).
 Proof. vm_compute. split; reflexivity. Qed.
+Definition ex_graph2 : list (term * term * term) := (Bnode [48;46;49], ex_p, Bnode [95;120]) :: ex_graph.   (* _:0.1 , _:_x *)
+Example ex_graph2_guarded :
+  forallb flat3 ex_graph2 = true /\ forallb expressible (rts ex_graph2) = true
+  /\ forallb (triple_valid true) (rts ex_graph2) = true /\ forallb (triple_valid false) (rts ex_graph2) = true
+  /\ model_parse true true 5 ex_graph2 = Some (expected_parse true ex_graph2).
+Proof. vm_compute. repeat split; reflexivity. Qed.
